@@ -308,22 +308,24 @@ theorem graph_round_trip (n : Nat) (hn : 0 < n) (adj : Adj) (hsym : ∀ i j, i <
   ⟨stateToGraph_graph n hn adj hsym hirr, stabilizerToGraph_graph n hn adj hsym hirr⟩
 
 /-- **`state_to_graph` depends only on the state, not on the generating set** (every n ≥ 1): two tableaux of real, commuting, independent
-    generators that generate the same signed group are converted to the SAME graph with the SAME gate list.  (The Hadamard positions are
+    generators that generate the same signed group are converted to the SAME graph with the SAME gate list (independence of the second
+    generating set follows from that of the first and is part of the conclusion).  (The Hadamard positions are
     the columns without pivot of the echelon form of the X part, and pivot columns are determined by the row space `{g.x : g ∈ group}`;
     `final_z` is the unique `C` with `z = x·C` on the transformed group; the sign-fixing `Z` gates are read off the canonical form, which is
     unique for the group.)  `stabilizer_to_graph_complete` below is the instance "one of the two is the graph gauge". -/
 theorem state_to_graph_depends_only_on_state (t t' : STab) (hn : 0 < t.n) (hstate : IsStabilizerState t)
-    (hstate' : IsStabilizerState t') (hsame : t.n = t'.n ∧ ∀ p, t.Spn p ↔ t'.Spn p) :
-    S2G.stateToGraph t = S2G.stateToGraph t' :=
-  stateToGraph_gauge_indep t t' hn hstate.1 hstate'.1 hstate.2 hstate'.2
-    ⟨hsame.1, fun p => (hsame.2 p).1, fun p => (hsame.2 p).2⟩
+    (hgood' : t'.Good) (hsame : t.n = t'.n ∧ ∀ p, t.Spn p ↔ t'.Spn p) :
+    IsStabilizerState t' ∧ S2G.stateToGraph t = S2G.stateToGraph t' :=
+  have hs : SpanEq t t' := ⟨hsame.1, fun p => (hsame.2 p).1, fun p => (hsame.2 p).2⟩
+  have hi' := indep_of_spanEq t t' hn hstate.1 hgood' hstate.2 hs
+  ⟨⟨hgood', hi'⟩, stateToGraph_gauge_indep t t' hn hstate.1 hgood' hstate.2 hi' hs⟩
 
 /-- non-vacuity of `state_to_graph_depends_only_on_state`: `⟨XX, −ZZ⟩` (`bellMinus`) and `⟨YY, −ZZ⟩` are two different generating sets
     of one state (`YY = XX · (−ZZ)`) -/
 def bellMinusYY : STab :=
   { n := 2, row := fun i => if i = 0 then ⟨fun j => decide (j < 2), fun j => decide (j < 2), false, false⟩
                             else ⟨fun _ => false, fun j => decide (j < 2), true, false⟩ }
-example : 0 < bellMinus.n ∧ IsStabilizerState bellMinus ∧ IsStabilizerState bellMinusYY ∧
+example : 0 < bellMinus.n ∧ IsStabilizerState bellMinus ∧ bellMinusYY.Good ∧
     (bellMinus.n = bellMinusYY.n ∧ ∀ p, bellMinus.Spn p ↔ bellMinusYY.Spn p) ∧
     ¬ (∀ i, i < 2 → PRow.EqOn 2 (bellMinus.row i) (bellMinusYY.row i)) := by
   have hs : SpanEq bellMinus bellMinusYY := by
@@ -352,7 +354,7 @@ example : 0 < bellMinus.n ∧ IsStabilizerState bellMinus ∧ IsStabilizerState 
     · exact a
     · rw [a] at b; simpa using b
   refine ⟨by decide, ⟨S2G.good_of_check _ (by decide), ind _ rfl (by decide) (by decide) (by decide)⟩,
-    ⟨S2G.good_of_check _ (by decide), ind _ rfl (by decide) (by decide) (by decide)⟩, ⟨rfl, fun p => ⟨hs.sub p, hs.sup p⟩⟩, ?_⟩
+    S2G.good_of_check _ (by decide), ⟨rfl, fun p => ⟨hs.sub p, hs.sup p⟩⟩, ?_⟩
   intro h
   have := ((h 0 (by decide)).1 0 (by decide)).2
   revert this
